@@ -91,6 +91,11 @@ def gen(S, tier):
         "io_kind": c.weighted([("sim", 6), ("buffered", 1), ("real", 1.5)]),
         # the second rendering goes to a stream with the other answer to supports_utf8()
         "utf8_flip2": c.chance(0.3),
+        # a hand-built I/O whose error output is more (or less) verbose than its output: the trace is
+        # written to the output, and it is the output's verbosity that decides what it shows
+        "err_verbosity": c.pick([None, None, None, 0, 4]),
+        # the application registered a style of its own on the formatter
+        "custom_style": c.chance(0.2),
     }
     if sc["ignore"] in ("some", "all") and c.chance(0.5):
         # the same trace object, the same pattern, the other side of the debug boundary
@@ -104,6 +109,9 @@ def gen(S, tier):
             sc["prior_exc"] = dict(sc["prior_exc"], msg=first, cause=None, context=None)
             sc["exc"] = dict(sc["exc"], msg=second)
         sc["prior_simple"] = w.chance(0.5)
+    if sc["custom_style"] and w.chance(0.6):
+        sc["exc"] = dict(sc["exc"], msg=w.pick(["<info>x</warning>", "<warning>careful</warning> now", "stray </warning> here",
+                                                 "<warning>never closed", "<b><warning>x</b></warning>"]))
     if w.chance(0.12):
         # earlier output on the SAME I/O left a style tag open (legal: the style just stays on); the
         # message then closes that style or another one
@@ -426,6 +434,13 @@ def _run(sc, res, log, store, r):
         err.data = io.fetch_error
         res.probe("buffered_io")
     io.set_verbosity(sc["verbosity"])
+    if sc.get("err_verbosity") is not None and sc["err_verbosity"] != sc["verbosity"]:
+        io.error_output.set_verbosity(sc["err_verbosity"])
+        res.probe("error_output_with_another_verbosity")
+    if sc.get("custom_style"):
+        from clikit.api.formatter import Style
+        io.output.formatter.add_style(Style("warning").fg("magenta").underlined())
+        res.probe("style_registered_by_the_application")
     if sc["verbosity"] == 4:
         res.probe("debug_verbosity")
     trace = ExceptionTrace(exc)
